@@ -181,20 +181,20 @@ theorem cursor_todo (prog : List IterOp) (c : Cursor) (m : OrdMap) :
 
 /-- set iterator programs: statuses and yielded elements are those of the ideal cursor over the
 elements (a successful `remove` hands back the dummy the table stored, which is what the cursor over
-the map-to-dummy returns); final content ideal; invariant preserved; no fault inside the contract -/
+the map-to-dummy returns); final content ideal; the **set** invariant (table invariant, all values the
+dummy, one triple), the ledger balance and ledger consistency hold afterwards, so the program can be
+followed by set calls (`C03.set_session_refines`); no fault inside the contract -/
 theorem set_program_refines (ho : TotalOrder cmp) (s : TreeSet) (h : s.Inv cmp) (prog : List IterOp) (m : Mem)
     (hm : TreeTable.Owns s.t m) :
     (s.iterRun cmp s.iterInit prog m).1 =
       ((Cursor.init s.t.abs).run s.t.abs prog).1.map (fun o => { st := o.st, val := o.val }) ∧
     (s.iterRun cmp s.iterInit prog m).2.1.t.abs = ((Cursor.init s.t.abs).run s.t.abs prog).2.2 ∧
-    (s.iterRun cmp s.iterInit prog m).2.1.t.Inv cmp ∧
-    (TreeTable.IterValid cmp s.t s.iterInit prog m → (s.iterRun cmp s.iterInit prog m).2.2.2.fault = m.fault) := by
-  have k := program_refines ho s.t h.1 prog m hm
-  have e := TreeSet.iterRun_eq_table (cmp := cmp) prog s s.iterInit m
-  rw [e.1, e.2.1, e.2.2.2]
-  have hi : s.iterInit = s.t.iterInit := rfl
-  rw [hi]
-  exact ⟨by rw [k.1], k.2.1, k.2.2.1, k.2.2.2.1⟩
+    (s.iterRun cmp s.iterInit prog m).2.1.Inv cmp ∧
+    (TreeTable.IterValid cmp s.t s.iterInit prog m → (s.iterRun cmp s.iterInit prog m).2.2.2.fault = m.fault) ∧
+    TreeTable.liveOf (s.iterRun cmp s.iterInit prog m).2.2.2 s.triple + s.t.size =
+      TreeTable.liveOf m s.triple + (s.iterRun cmp s.iterInit prog m).2.1.t.size ∧
+    TreeTable.Owns (s.iterRun cmp s.iterInit prog m).2.1.t (s.iterRun cmp s.iterInit prog m).2.2.2 :=
+  C03.set_iter_refines ho s h prog m hm
 
 /-- **traversal_complete** for the set: every element once, ascending, then `CC_ITER_END` -/
 theorem set_traversal_complete (ho : TotalOrder cmp) (s : TreeSet) (h : s.Inv cmp) (m : Mem)
